@@ -21,6 +21,8 @@ Queries:
   {"k": "setmode", "mode"}                                   dippy.MODE = mode
   {"k": "configure", "log", "full"}                          config.configure_logging
   {"k": "log_decision"}                                      config.log_decision("allow", "x", command="x")
+  {"k": "log_call", "decision", "cmd", "rule", "message", "command"}   config.log_decision with those arguments
+  {"k": "fs", "op": rmdir|mkdir|unlink, "path"}              the file system changes between two calls
 With share_config the Config object of a config text is parsed once and handed to every analysis that uses
 that text (what a long-lived caller does); it is then one of the snapshot roots (`input:config[i]`).
 """
@@ -98,6 +100,13 @@ def run(q):
         return None
     if k == "log_decision":
         config.log_decision("allow", "x", command="x")
+        return None
+    if k == "log_call":          # config.log_decision with any subset of its optional arguments
+        kw = {n: q[n] for n in ("rule", "message", "command") if q.get(n) is not None}
+        config.log_decision(q["decision"], q["cmd"], **kw)
+        return None
+    if k == "fs":                # the file system changes under the process (a transient fault comes or goes)
+        {"rmdir": os.rmdir, "mkdir": os.mkdir, "unlink": os.unlink}[q["op"]](q["path"])
         return None
     raise ValueError(k)
 
@@ -210,10 +219,12 @@ for q in job["final"]:
     if watch:
         g = []
         for i, (a, b) in enumerate(zip(s0, sizes())):
-            if b != a:
+            if b > a:
                 with open(watch[i], "rb") as f:
-                    f.seek(min(a, b))
+                    f.seek(a)
                     g.append([i, a, b, f.read().decode("utf-8", "replace")])
+            elif b < a:
+                g.append([i, a, b, ""])      # truncated, removed or replaced
         growth.append(g)
 changed = []
 if before is not None:
